@@ -59,6 +59,9 @@ class Cov(np.ndarray):
     def copy(self, frame=None):
         """"""
         new = self.__class__(self.orb, self.base, frame=self.frame)
+        # The copy stays attached to the same frame as the original, even if
+        # its private statevector has since been expressed in an other one
+        new._orb_frame = self._orb_frame
         if frame is not None:
             new.frame = frame
         return new
